@@ -36,7 +36,7 @@ def nrm(a):
 
 @st.composite
 def group_cases(draw):
-    N = 2 * draw(st.integers(1, 32))
+    N = draw(st.one_of(st.integers(1, 32).map(lambda k: 2 * k), st.integers(1, 65)))      # the group laws do not need an even grid
     u = draw(gen.complex_array((N, N), kind=draw(st.sampled_from(["dense", "dense", "sparse"]))))
     d1 = draw(gen.logfloat(1e-4, 1e-1))
     wvl = draw(gen.logfloat(0.3e-6, 10e-6))
@@ -52,7 +52,7 @@ def group_body(ctx, case):
     zs = [a * d1 * d1 / wvl for a in case["steps"]]
     total = math.fsum(zs)
     mixed = any(z > 0 for z in zs) and any(z < 0 for z in zs)
-    ctx.case(case, nontrivial=len(zs) >= 3 and mixed, classes=["steps%d" % len(zs), "mixed" if mixed else "one_sign"])
+    ctx.case(case, nontrivial=len(zs) >= 3 and mixed, classes=["steps%d" % len(zs), "mixed" if mixed else "one_sign", "N_odd" if u.shape[0] % 2 else "N_even"])
     nu = nrm(u)
     P = lambda f, z: o.angularSpectrum(f, wvl, d1, d1, z)
     # identity
